@@ -354,4 +354,40 @@ def Node.reportedUtxo (n : Node) (p : Params) : List Nat :=
   | .ok s => (s.utxo.map (·.1))
   | .error _ => []
 
+/-! ### Pool-facing admission checks against the head (`Chain::verify_coinbase_maturity`,
+`verify_tx_lock_height`, `validate_tx`): all are evaluated for the NEXT block height. -/
+
+/-- a transaction as the chain sees it -/
+structure TxA where
+  ins : List Nat
+  outs : List Nat
+  kers : List Ker
+deriving Repr, Inhabited
+
+/-- `verify_coinbase_maturity(inputs)`: every input must be unspent; a coinbase among them must
+be mature at the next block height -/
+def txMaturity (p : Params) (s : UState) (t : TxA) : Option Err :=
+  if !(t.ins.all s.has) then some "AlreadySpent"
+  else if t.ins.any (fun i => match s.find i with
+      | some (_, c, true) => decide (s.height + 1 < c + p.maturity)
+      | _ => false) then some "ImmatureCoinbase"
+  else none
+
+/-- `verify_tx_lock_height`: the largest lock height must not exceed the next block height -/
+def txLock (s : UState) (t : TxA) : Option Err :=
+  if t.kers.any (fun k => match k with | .hl _ l => decide (l > s.height + 1) | _ => false)
+  then some "TxLockHeight" else none
+
+/-- `validate_tx`: outputs must not duplicate unspent commitments, inputs must be unspent, NRD
+kernels must respect their relative height against this chain at the next block height -/
+def txValidate (s : UState) (t : TxA) : Option Err :=
+  if t.outs.any s.has then some "DuplicateCommitment"
+  else if !(t.ins.all s.has) then some "AlreadySpent"
+  else if t.kers.any (fun k => match k with
+      | .nrd _ rel ex => match s.nrd.find? (·.1 == ex) with
+        | some (_, hPrev) => decide (s.height + 1 < hPrev + rel)
+        | none => false
+      | _ => false) then some "NRDRelativeHeight"
+  else none
+
 end GV.Chain
